@@ -411,7 +411,12 @@ def rule_carrier(ck, X):
         a_sel = [e for e in attrs if holds(e, kind)]
         m_sel = [e for e in members if holds(e, kind)]
         a_txt = sorted({e.skeleton().strip() for e in a_sel})
-        m_ty = sorted({(og.nf_str(e.holes()[0][0]) if e.holes() else e.skeleton().split(":", 1)[1].strip().rstrip(",")) for e in m_sel})
+        def _ty_of(e):
+            if not e.holes():
+                return e.skeleton().split(":", 1)[1].strip().rstrip(",")
+            t_ = og.nf_str(e.holes()[0][0])
+            return "rust_type" if t_ == "rust_type" or t_.endswith(".rust_type") else t_    # the simple type's base, however it is reached
+        m_ty = sorted({_ty_of(e) for e in m_sel})
         if not a_sel or not m_sel:
             ck.violation("R5", f"carrier:{label}", "-", f"simple type with {label} base: carrier member not found")
             continue
